@@ -19,7 +19,6 @@ theorem decimal_floor_eq (prof : Profile) (d : Dec) : Gen.K.decimal_floor prof d
   | zero => rfl
   | succ n =>
     simp only [ten_pow_eq, div_floor_eq]
-    rfl
 
 theorem decimal_ceil_eq (prof : Profile) (d : Dec) : Gen.K.decimal_ceil prof d = ceil prof d := by
   unfold Gen.K.decimal_ceil ceil
@@ -27,7 +26,6 @@ theorem decimal_ceil_eq (prof : Profile) (d : Dec) : Gen.K.decimal_ceil prof d =
   | zero => rfl
   | succ n =>
     simp only [ten_pow_eq, div_ceil_eq]
-    rfl
 
 theorem decimal_trunc_eq (prof : Profile) (d : Dec) : Gen.K.decimal_trunc prof d = trunc d := by
   unfold Gen.K.decimal_trunc trunc
@@ -35,7 +33,6 @@ theorem decimal_trunc_eq (prof : Profile) (d : Dec) : Gen.K.decimal_trunc prof d
   | zero => rfl
   | succ n =>
     simp only [ten_pow_eq]
-    rfl
 
 theorem decimal_fract_eq (prof : Profile) (d : Dec) : Gen.K.decimal_fract prof d = fract d := by
   unfold Gen.K.decimal_fract fract
@@ -43,6 +40,5 @@ theorem decimal_fract_eq (prof : Profile) (d : Dec) : Gen.K.decimal_fract prof d
   | zero => rfl
   | succ n =>
     simp only [ten_pow_eq]
-    rfl
 
 end Fpdec.Kernels
